@@ -356,6 +356,7 @@ def check_cfg(ctx, fx, cfg):
     ctx.floor("R01.3", "submit closures (%s)" % cfg, n_sub, 4)
     # R01.4 payloads go to the submit closure of the addressed actor only
     pctors = loops.payload_ctors(fx)
+    own_default = {(g_["def"], st_.get("l")) for g_, _bi, st_ in loops.closed_as_stop_sites(fx)}
     n_sites = 0
     for f in fx.d["fns"]:
         b = ctx.body(fx, f)
@@ -366,6 +367,8 @@ def check_cfg(ctx, fx, cfg):
             if (t.get("resolved") or t.get("callee") or "") in pctors:
                 sites.append(("task", t["dest"][0], t["l"]))
         for bi, si, st in agg_sites(b, adt=loops.PAYLOAD):
+            if (f["def"], st.get("l")) in own_default:
+                continue  # the event loop's own reading of a closed mailbox (`dequeued.unwrap_or(Payload::Stop)`)
             if st["r"].get("variant") in ("Stop", "Restart") and f["def"] not in pctors:
                 sites.append((st["r"]["variant"], st["p"][0], st.get("l")))
         for kind, local, loc in sites:
